@@ -94,6 +94,8 @@ class C25(ByteChanSpec):
         case["pattern"] = rng.choice(PATTERNS)
         case["status"] = rng.random() < 0.5
         case["verbose"] = rng.choice([0, 0, 1])
+        # terminal width the tool sees (it wraps its report to it)
+        case["columns"] = rng.choice([None, None, None, None, "10", "20", "40", "79", "80", "300"])
         return case
 
     def shrink(self, case):
@@ -103,6 +105,8 @@ class C25(ByteChanSpec):
             yield dict(case, pattern=PATTERNS[0])
         if case["status"]:
             yield dict(case, status=False)
+        if case.get("columns") is not None:
+            yield dict(case, columns=None)
 
     def judge(self, case, clean, data, changed, events, stats):
         def viol(sig, detail):
@@ -123,6 +127,13 @@ class C25(ByteChanSpec):
             argv.append("--no-status")
         argv += ["-v"] * case["verbose"]
         rc = exc = None
+        import os as _os
+
+        old_cols = _os.environ.get("COLUMNS")
+        if case.get("columns") is not None:
+            _os.environ["COLUMNS"] = case["columns"]
+        else:
+            _os.environ.pop("COLUMNS", None)
         with S.installed(fs, {validator_mod: ["open", "os"], file_format: ["open", "os"]}):
             with S.captured_stdio() as (out, err):
                 _sys.argv = ["vc2-bitstream-validator"] + argv
@@ -134,8 +145,13 @@ class C25(ByteChanSpec):
                     rc, exc = "SystemExit(%r)" % (e.code,), e
                 except BaseException as e:  # noqa: BLE001
                     rc, exc = "raised", e
+                finally:
+                    if old_cols is None:
+                        _os.environ.pop("COLUMNS", None)
+                    else:
+                        _os.environ["COLUMNS"] = old_cols
         stdout, stderr = out.getvalue(), err.getvalue()
-        events.append(("cli", rc, lname, len(stdout), sorted(fs.files)))
+        events.append(("cli", rc, lname, len(stdout), sorted(fs.files), case.get("columns")))
         stats["rc:%s" % (rc,)] += 1
         key = "%s|%s|%s|rc=%s" % (cfg_class(case.get("cfg") or case.get("tc") or case.get("hist")), self.kinds_of(case), lname, rc)
         if rc == "oos":
@@ -282,7 +298,7 @@ class C26(ByteChanSpec):
             # terminal size, locale, TERM — with default options
             case["opts"] = []
             case["env"] = {
-                "COLUMNS": rng.choice(["1", "10", "20", "40", "47", "48", "49", "60", "79", "80", "132", "500", ""]),
+                "COLUMNS": rng.choice(["10", "20", "40", "47", "48", "49", "60", "79", "80", "132", "500", ""]),
                 "LINES": rng.choice(["1", "24", "50", ""]),
                 "TERM": rng.choice(["dumb", "xterm", "vt100", ""]),
                 "LC_ALL": rng.choice(["C", "POSIX", "C.UTF-8", ""]),
